@@ -79,7 +79,7 @@ def file_content(gen):
         return by, layout['fields'], {'model': model, 'layout': layout}
     if world == 'lis':
         from worlds import lis_logical
-        model = lis_logical.gen_model(rng, max_frames=gen.get('frames', 40), names_pool=gen.get('names'), small_pr=gen.get('small_pr', False))
+        model = lis_logical.gen_model(rng, max_frames=gen.get('frames', 40), names_pool=gen.get('names'), small_pr=gen.get('small_pr', False), huge=gen.get('huge', False), tif_pad=gen.get('tif_pad', False))
         if gen.get('variant'):
             model = vary(world, model, gen['variant'])
         by, layout = lis_logical.build(model)
